@@ -377,7 +377,7 @@ def main():
         "checker_cmd": "; ".join(r["cmd"] for r in runs.values()) or "verus (not run: %s)" % (undecided or ""),
         "trusted_base": ["Verus 0.2026.09.13 + Z3 (its bundled solver)", "rustc 1.98.1 front end",
                          "model/hashbrown_0_14_5.rs + model/lawfulness.rs (dependency contract incl. hb_ref/hb_mut, user-trait lawfulness incl. key_eq, the lent-closure axiom, the ghost dereference bucket_ref_g: %d trusted items)" % res.get("scan", {}).get("model", 0),
-                         "tools/splice.py extraction rules R1-R22 (identity check: %d functions re-derived token-identical)" % res.get("identity", {}).get("checked", 0)],
+                         "tools/splice.py extraction rules R1-R23 (identity check: %d functions re-derived token-identical)" % res.get("identity", {}).get("checked", 0)],
         "explanation": "obligations = verification conditions (AIR asserts, from Verus' own log) generated for the functions that carry a clause "
                        "labelled %s; discharged = those not reported failed. labelled_clauses = clauses written for this property." % pid,
         "labelled_clauses": len(clauses), "functions_under_contract": fn_rows,
